@@ -1484,6 +1484,18 @@ EGLPNUM_TYPENAME_QSLIB_INTERFACE int EGLPNUM_TYPENAME_QSchange_senses (
 	rval = EGLPNUM_TYPENAME_ILLlib_chgsense (p->lp, num, rowlist, sense);
 	CHECKRVALG (rval, CLEANUP);
 
+	/* only the logical of a ranged row can be non-basic at its upper bound:
+	 * ILLbasis_load refuses that status for any other row */
+	if (p->basis && p->basis->rstat)
+	{
+		int i;
+		for (i = 0; i < num; i++)
+		{
+			if (sense[i] != 'R' && p->basis->rstat[rowlist[i]] == QS_ROW_BSTAT_UPPER)
+				p->basis->rstat[rowlist[i]] = QS_ROW_BSTAT_LOWER;
+		}
+	}
+
 	p->factorok = 0;
 	free_cache (p);
 
